@@ -548,3 +548,50 @@ Definition name_value_ci (cs : list const) (s : string) : option Z :=
   | Some c => Some (c_val c)
   | None => None
   end.
+
+(* ---- spec-level view of traits: columns are named on the line of the least (value, name) *)
+Definition const_less (a b : const) : bool :=
+  if c_val a =? c_val b then str_ltb (c_name a) (c_name b) else c_val a <? c_val b.
+(* the constant whose line names the traits: the first in ascending (value, name) order *)
+Definition lowest_const (cs : list const) : option const := hd_error (isort const_less cs).
+Definition column_names (d : defn) : list string :=
+  match lowest_const (d_consts d) with
+  | Some c => map (fun cl => trim_underscore (cl_var cl)) (c_cells c)
+  | None => []
+  end.
+(* (column name, cell) pairs of a constant *)
+Definition named_cells (d : defn) (c : const) : list (string * cell) := combine (column_names d) (c_cells c).
+Definition parsable_cells (d : defn) (o : opts) (c : const) : list cell :=
+  if o_notraits o then []
+  else map snd (filter (fun p => str_mem (fst p) (o_parsable o)) (named_cells d c)).
+(* is the dynamic value x the value of a parsable trait (of any constant)? *)
+Definition is_parsable_trait_value (d : defn) (o : opts) (x : dyn) : bool :=
+  existsb (fun c => existsb (fun cl => dyn_eqb x (cl_val cl)) (parsable_cells d o c)) (d_consts d).
+
+
+(* the cell of column col on the primary definition line of value e *)
+Definition primary_cell (d : defn) (col : string) (e : Z) : option cell :=
+  match primary_const (d_consts d) e with
+  | Some c => match find (fun p => String.eqb (fst p) col) (named_cells d c) with
+              | Some p => Some (snd p)
+              | None => None
+              end
+  | None => None
+  end.
+Definition column_zero (d : defn) (col : string) : payload :=
+  match lowest_const (d_consts d) with
+  | Some l => match find (fun p => String.eqb (fst p) col) (named_cells d l) with
+              | Some p => match lookup (dty (cl_val (snd p))) (d_types d) with
+                          | Some ti => zero_payload (ti_bkind ti)
+                          | None => PInt 0
+                          end
+              | None => PInt 0
+              end
+  | None => PInt 0
+  end.
+Definition accessor_spec (d : defn) (col : string) (e : Z) : payload :=
+  match primary_cell d col e with
+  | Some cl => dval (cl_val cl)
+  | None => column_zero d col
+  end.
+
